@@ -9,7 +9,7 @@ EXPLANATION = ("The real SingularityCutter runs on fixed small triangulated surf
                "compared with direct inspection of the input.")
 BOUNDS = {
     "quick": "two-triangle disk, closed 4-fan disk, 4-triangle strip, tetrahedron and octahedron (spheres): every singular subset; "
-             "8-triangle annulus: subsets of size <= 2; 3x3 torus (18 triangles): subsets of size <= 1; symbolic transposition of labels",
+             "8-triangle annulus: subsets of size <= 2; 3x3 torus (18 triangles): subsets of size <= 1; symbolic transposition of labels; singular set given as list, set or one-shot iterator; with and without an earlier cut of the same mesh object",
     "thorough": "annulus: every subset; torus: subsets of size <= 3",
 }
 OUTSIDE = ("feature constraints other than the sharp edges of a cube; symbolic edge lengths (orderings of sums of radicals explode): coordinates are concrete and generic; surfaces of higher "
@@ -67,7 +67,8 @@ def cut(name, max_sing=None, interior_features=False):
         sing = [v for v in range(V) if sx.flag("singular%d" % v)]
         if max_sing is not None:
             sx.assume(len(sing) <= max_sing)
-        as_set = sx.flag("singularities_as_set")
+        form = sx.choice("singularities_given_as", 3)       # 0 list, 1 set, 2 one-shot iterator
+        earlier = sx.flag("an_earlier_cut_on_the_same_mesh")
         with_detector = True if interior_features else sx.flag("with_border_feature_detector")
         mesh = meshgen.build(coords, (), faces)
         closed = len(oracle.border_edges(faces)) == 0
@@ -78,7 +79,12 @@ def cut(name, max_sing=None, interior_features=False):
             if with_detector:
                 det = FeatureEdgeDetector(only_border=not interior_features, verbose=False)
                 det.run(mesh)
-            cutter = SingularityCutter(mesh, set(sing) if as_set else list(sing), features=det)
+            if earlier:
+                # the same mesh object (and detector) was already cut for another singular set: nothing of it may linger
+                first = SingularityCutter(mesh, [v for v in (0, V - 1) if v not in sing] or [0], features=det)
+                first.run()
+            given = [list(sing), set(sing), iter(list(sing))][form]
+            cutter = SingularityCutter(mesh, given, features=det)
             cutter.run()
             out = cutter.output_mesh
         except Exception as e:
